@@ -1,8 +1,9 @@
 """ITU-T T.6 (Group 4) writer used by C19.
 
 Two layers:
-  * bits_of_row(syms): mode symbols (as the specification G4.tla prints them) -> bits, by inverting pdfminer's own
-    code tables after checking them structurally (see check_tables);
+  * bits_of_row(syms): mode symbols (as the specification G4.tla prints them) -> bits, with the writer's OWN code
+    tables: the constants of specs/ccitt/T4Codes.tla (checked before use: check_reference).  pdfminer's tries are an
+    object of the check: table_diffs() compares them with the reference;
   * encode(rows, w, choose): a T.6 encoder written from the recommendation (a0/a1/a2/b1/b2 on changing elements),
     with a pluggable mode choice; before use it is self-checked against decode_syms(), an independent symbol-level
     decoder that works on changing-element lists.  TLC re-validates its symbols again (G4Trace.tla walks the writer
@@ -15,14 +16,110 @@ from ..tlc import MachineryError
 
 MK, MKMAX = 64, 2560
 
+import os
+import re
+
+from ..tlc import SPECS
+
 try:
     from pdfminer.ccitt import CCITTG4Parser
     _MODE, _WHITE, _BLACK = CCITTG4Parser.MODE, CCITTG4Parser.WHITE, CCITTG4Parser.BLACK
 except (ImportError, AttributeError) as e:
     raise MachineryError("C19 anchors missing in pdfminer.ccitt: %r" % (e,))
 
+T4_MODULE = os.path.join(SPECS, "ccitt", "T4Codes.tla")
+
+# T.4 / T.6 code words that can be vouched for independently of any table (cross-check of the reference module)
+ANCHORS = {
+    "mode": {0: "1", 1: "011", -1: "010", "h": "001", "p": "0001", 2: "000011", -2: "000010", 3: "0000011", -3: "0000010",
+             "e": "000000000001000000000001"},
+    "white": {0: "00110101", 1: "000111", 2: "0111", 3: "1000", 4: "1011", 20: "0001000", 40: "00101001", 63: "00110100",
+              64: "11011", 1792: "00000001000", 2496: "000000011110", 2560: "000000011111"},
+    "black": {0: "0000110111", 1: "010", 2: "11", 3: "10", 4: "011", 17: "0000011000", 20: "00001101000", 40: "000001101100",
+              64: "0000001111", 1792: "00000001000", 2496: "000000011110", 2560: "000000011111"},
+}
+_tables = None
+
+
+def _parse_reference():
+    """the writer's own code tables: the constants of specs/ccitt/T4Codes.tla"""
+    try:
+        text = open(T4_MODULE).read()
+    except OSError as e:
+        raise MachineryError("reference code tables missing: %r" % (e,))
+
+    def entries(name):
+        m = re.search(r"^%s == <<(.*?)>>\s*$" % name, text, re.S | re.M)
+        if not m:
+            raise MachineryError("T4Codes.tla: definition %s not found" % name)
+        return [(int(v), w) for v, w in re.findall(r'<<\s*(-?\d+)\s*,\s*"([01]+)"\s*>>', m.group(1))]
+
+    def word(name):
+        m = re.search(r'^%s == "([01]+)"' % name, text, re.M)
+        if not m:
+            raise MachineryError("T4Codes.tla: definition %s not found" % name)
+        return m.group(1)
+
+    ext = entries("ExtendedMakeUp")
+    t = {"white": dict(entries("WhiteRuns") + ext), "black": dict(entries("BlackRuns") + ext),
+         "mode": dict(entries("VerticalModes"))}
+    t["mode"].update({"p": word("PassMode"), "h": word("HorizontalMode"), "e": word("EOFB")})
+    return t
+
+
+def tables():
+    """-> dict(mode=, white=, black=) value -> code word: the REFERENCE tables the writer uses (never pdfminer's)"""
+    global _tables
+    if _tables is None:
+        t = _parse_reference()
+        check_reference(t)
+        _tables = t
+    return _tables
+
+
+def holes(words):
+    """the minimal bit prefixes under which a prefix code has no word"""
+    words = set(words)
+    out = []
+
+    def rec(p):
+        if p in words:
+            return
+        if not any(w.startswith(p) for w in words):
+            out.append(p)
+            return
+        rec(p + "0")
+        rec(p + "1")
+    rec("")
+    return out
+
+
+def check_reference(t):
+    """properties of the harness's own reference; any failure here is a failure of the machinery"""
+    for name, tab in t.items():
+        words = sorted(tab.values())
+        if len(set(words)) != len(words):
+            raise MachineryError("reference %s table: two values share a code word" % name)
+        for a, b in zip(words, words[1:]):
+            if b.startswith(a):
+                raise MachineryError("reference %s table is not prefix-free: %s / %s" % (name, a, b))
+        for v, w in ANCHORS[name].items():
+            if tab.get(v) != w:
+                raise MachineryError("reference %s table: code word of %r is %r, T.4/T.6 says %r" % (name, v, tab.get(v), w))
+    for name in ("white", "black"):
+        if sorted(t[name]) != list(range(0, 64)) + list(range(64, MKMAX + 1, 64)):
+            raise MachineryError("reference %s table does not hold exactly the run values 0..63 and 64,128..2560" % name)
+        if sum(Fraction(1, 2 ** len(w)) for w in t[name].values()) != Fraction(255, 256) or holes(t[name].values()) != ["00000000"]:
+            raise MachineryError("reference %s table is not complete up to the EOL prefix 00000000" % name)
+    for v in range(1792, MKMAX + 1, 64):
+        if t["white"][v] != t["black"][v]:
+            raise MachineryError("reference: extended make-up code %d differs between the colours" % v)
+    if sorted(k for k in t["mode"] if isinstance(k, int)) != [-3, -2, -1, 0, 1, 2, 3]:
+        raise MachineryError("reference mode table: vertical offsets")
+
 
 def invert(trie):
+    """pdfminer's trie -> {value: [code words]} (several words for one value are kept: that is a finding, not a crash)"""
     out = {}
 
     def walk(node, pre):
@@ -33,53 +130,30 @@ def invert(trie):
             if isinstance(v, list):
                 walk(v, pre + str(b))
             elif v is not None:
-                if v in out:
-                    raise MachineryError("value %r has two code words" % (v,))
-                out[v] = pre + str(b)
+                out.setdefault(v, []).append(pre + str(b))
     walk(trie, "")
     return out
 
 
-# T.4 / T.6 code words that can be vouched for independently of the table under test
-ANCHORS = {
-    "mode": {0: "1", 1: "011", -1: "010", "h": "001", "p": "0001", 2: "000011", -2: "000010", 3: "0000011", -3: "0000010",
-             "e": "000000000001000000000001"},
-    "white": {0: "00110101", 1: "000111", 2: "0111", 3: "1000", 4: "1011", 64: "11011", 1792: "00000001000"},
-    "black": {0: "0000110111", 1: "010", 2: "11", 3: "10", 4: "011", 64: "0000001111", 1792: "00000001000"},
-}
-_tables = None
-
-
-def tables():
-    """-> dict(mode=, white=, black=) value -> code word, after the structural checks"""
-    global _tables
-    if _tables is None:
-        t = {"mode": invert(_MODE), "white": invert(_WHITE), "black": invert(_BLACK)}
-        check_tables(t)
-        _tables = t
-    return _tables
-
-
-def check_tables(t):
-    for name, tab in t.items():
-        words = sorted(tab.values())
-        for a, b in zip(words, words[1:]):
-            if b.startswith(a):
-                raise MachineryError("%s table is not prefix-free: %s / %s" % (name, a, b))
-        kraft = sum(Fraction(1, 2 ** len(w)) for w in words)
-        if kraft > 1:
-            raise MachineryError("%s table violates the Kraft inequality" % name)
-        for v, w in ANCHORS[name].items():
-            if tab.get(v) != w:
-                raise MachineryError("%s table: code word of %r is %r, T.4/T.6 says %r" % (name, v, tab.get(v), w))
-    for name in ("white", "black"):
-        runs = sorted(v for v in t[name] if isinstance(v, int))
-        need = list(range(0, 64)) + list(range(64, MKMAX + 1, 64))
-        if runs != need:
-            raise MachineryError("%s table does not hold exactly the run values 0..63 and 64,128..2560" % name)
-    for v in range(1792, MKMAX + 1, 64):            # the extended make-up codes are common to both colours
-        if t["white"][v] != t["black"][v]:
-            raise MachineryError("extended make-up code %d differs between the colours" % v)
+def table_diffs():
+    """pdfminer's MODE/WHITE/BLACK tries against the reference -> [(table, kind, value, reference word, real words)]
+    kind: missing-code | wrong-code | extra-code.  Mode-table entries the property does not use (uncompressed mode and
+    the reserved extensions) are not compared."""
+    ref = tables()
+    real = {"mode": invert(_MODE), "white": invert(_WHITE), "black": invert(_BLACK)}
+    out = []
+    for name in ("mode", "white", "black"):
+        for v, w in sorted(ref[name].items(), key=lambda kv: str(kv[0])):
+            got = real[name].get(v, [])
+            if not got:
+                out.append((name, "missing-code", v, w, []))
+            elif got != [w]:
+                out.append((name, "wrong-code", v, w, got))
+        if name != "mode":
+            for v, got in real[name].items():
+                if v not in ref[name]:
+                    out.append((name, "extra-code", v, None, got))
+    return out
 
 
 def run_codes(n):
